@@ -90,6 +90,18 @@ def run(facts, rep, tier, ctx):
             rep.ob("R18.1", b2.id, "inherited default of %s only answers NotSupported" % b2.name, okd, "" if okd else
                    "the provided method %s (inherited by EmbeddedFS) builds %s / calls %s: a mutating call on the read-only embedded "
                    "filesystem is not refused as not-supported" % (b2.name, sorted(kinds2), calls2[:3]), b2.span)
+    # create_dir_all on the read-only view: the composite tolerates exactly DirectoryExists from create_dir, so NotSupported
+    # comes through (shared with C17 R17.1 / C20)
+    from ..pathflow import World as _W
+    from ..pathrules import PathRules as _PR
+    from ..report import Report as _R
+    scr = _R("c")
+    _PR(facts, _W(facts, False), D).create_dir_all(scr, "C")
+    for ob_ in scr.obligations:
+        d_ = ob_["key"].split("|")[2]
+        if "tolerates exactly" in d_ or "tolerated unconditionally" in d_:
+            n += 1
+            rep.ob("R18.1", ob_["fn"], d_, ob_["ok"], ob_["detail"], ob_["loc"])
     rep.floor("mutator obligations", n, 11)
     # ---- R18.2
     adt = facts.adts.get("impls::embedded::EmbeddedFS")
@@ -153,6 +165,31 @@ def run(facts, rep, tier, ctx):
         rep.ob("R18.3", b.id, "%s is decided by the index maps only" % m, not asks, "" if not asks else
                "%s calls into the embedded data (RustEmbed::get/iter) instead of the index built at construction: paths the index "
                "does not contain can be reported as existing" % m, asks[0] if asks else b.span)
+    # the embedded data is only asked for paths the index knows: rust-embed resolves more spellings than the index has
+    # ('\\' as a separator, on-disk lookups in debug builds), so a bare T::get(path) serves files that exists(), metadata(),
+    # the listings and a physical folder all report as absent
+    for m in ("open_file", "metadata"):
+        b = o.get(m)
+        if b is None:
+            continue
+        for cb in inter.code_bodies(b):
+            for blk in cb.calls():
+                cal = blk.term.callee() or ""
+                if not ("RustEmbed" in cal and cal.split("::")[-1].split("<")[0] == "get"):
+                    continue
+                gs = D.guards(cb, blk.idx)
+                hit = False
+                for g in gs:
+                    t = g[1]
+                    while t[0] in ("okval", "await"):
+                        t = t[1]
+                    if g[0] == "bool" and g[2] is True and t[0] == "call" and t[1] in ("HashMap::contains_key", "BTreeMap::contains_key"):
+                        hit = True
+                    if g[0] == "variant" and g[2] == "ok" and t[0] == "call" and t[1] in ("HashMap::get", "BTreeMap::get"):
+                        hit = True
+                rep.ob("R18.3", b.id, "%s asks the embedded data only after a hit in the index" % m, hit, "" if hit else
+                       "%s calls T::get without a preceding hit in the file index: spellings the index does not contain (e.g. \"/a\\\\d.txt\" for "
+                       "a/d.txt) are served although every other observer reports them absent" % m, blk.term.line)
     # who may construct: the struct is only built where the index is built (a derived / second constructor would hand out an
     # empty or partial view)
     ctor_bodies = []
